@@ -13,7 +13,7 @@ CHECK = {
     "manifest": {
         "engine": "GATE + explicit-state BFS",
         "technique": "explicit-state breadth-first search over operation histories against a reference model, plus stateless model checking of concurrent programs (all lock-level interleavings, linearisation order replayed on the reference model), plus a free-running race-detector pass",
-        "text": "(a1) every order of Init/Complete/Clear on 2 (3) names and Await/Cancel of 2 waiters up to depth 6 (7), merged by the canonical reference state, each replayed on the real Tracer and compared with the sequential reference after every event; (a2) every 2-thread program of 1-2 operations (3 threads x 1 in thorough) over the same alphabet from 4 initial states, with and without a canceller, under every interleaving at lock granularity, judged by replaying the observed lock-acquisition order on the reference; (b) builder event programs from 2-4 goroutines under every interleaving: Complete exactly once, nothing appended afterwards, no deadlock with a lock-sharing collector; (c) same bodies free-running with -race.",
+        "text": "(a1) every order of Init/Complete/Clear on 2 (3) names and Await/Cancel of 2 waiters up to depth 6 (7), merged by the canonical reference state, each replayed on the real Tracer and compared with the sequential reference after every event; (a2) every 2-thread program of 1-2 operations (3 threads x 1 in thorough) over the same alphabet from 4 initial states, with and without a canceller, under every interleaving at lock granularity, judged by replaying the observed lock-acquisition order on the reference; (b) builder event programs from 2-4 goroutines under every interleaving: Complete exactly once, nothing appended afterwards, no deadlock with a lock-sharing collector; (c) same bodies free-running with -race. Added after the seeding rounds: (a1') every history over 2 names up to depth 6 (7) WITHOUT merging, and a trace a waiter obtained must keep reading the same afterwards; (d) TracingRoundTripper / TracingHandler under GATE with scripted transports, handlers, response writers, cancellation at any moment and a waiter on a real Tracer - exactly one completion, nothing changes after hand-off, RequestCanceled completes a trace only if somebody cancelled - plus a free-running -race pass; (e) c16-consumers: testResults.fetchTrace/report histories with the report asked for at once; (f) c16-conn: every named stream of an HTTP/2 connection has exactly one completed trace once the connection is gone, under every ending.",
         "note": "Preemption only at lock acquisitions; unbounded (no preemption bound) because the programs are tiny.",
         "design_ref": "DESIGN.md §4 C16",
     },
